@@ -5,7 +5,8 @@ at effect number VT_INJECT_AT, either kills the process (crash) or makes that si
 
 Effects:  open-w / open-a (audit `open` with a writing mode: create or truncate),  close-w / close-a (the buffered content
 reaches the disk: writes are held back by a proxy until close so that a torn write can be produced deterministically),
-rename (os.rename / os.replace / shutil.move on one file system), remove, mkdir, rmdir, truncate, chmod, symlink, link.
+rename (os.rename / os.replace), move / copyfile / rmtree / copytree (the shutil operation as one step), remove, mkdir, rmdir,
+truncate, chmod, symlink, link.
 
 VT_INJECT_MODE: record | crash | crash-part | crash-full | error
    crash       exit(137) immediately BEFORE effect k takes place (for close-*: nothing of the pending content is written)
@@ -71,6 +72,16 @@ if _LOG:
                 act = _effect('open-a' if (mode and 'a' in str(mode)) else 'open-w', rel)
                 if act == 'error':
                     raise OSError(errno.EIO, 'injected I/O error', str(path))
+            elif event in ('shutil.move', 'shutil.copyfile', 'shutil.rmtree', 'shutil.copytree'):
+                # the library-level operation as ONE step (an error here fails the whole move, whereas an error at the os.rename
+                # inside shutil.move only triggers its copy-and-delete fallback)
+                rel = _under(args[0])
+                rel2 = _under(args[1]) if len(args) > 1 else None
+                if rel is None and rel2 is None:
+                    return
+                act = _effect(event[7:], rel, rel2)
+                if act == 'error':
+                    raise OSError(errno.EIO, 'injected I/O error', str(args[0]))
             elif event in ('os.rename', 'os.remove', 'os.mkdir', 'os.rmdir', 'os.truncate', 'os.chmod', 'os.symlink', 'os.link'):
                 rel = _under(args[0])
                 rel2 = _under(args[1]) if event in ('os.rename', 'os.symlink', 'os.link') and len(args) > 1 else None
